@@ -104,7 +104,7 @@ CLAIMS["C03"] = dict(
 
 CLAIMS["C15"] = dict(
     category="model_checking", design_ref="DESIGN.md section 4, C15",
-    technique="TLA+ spec MapPost (TimingLines decoder composed with stable sort, break sweep, slider velocity/duration and sample-point defaults at end+5 ms / node+5 ms) with invariants SortedStable, ComboAfterBreak, ClosedForms and ShiftInvariant checked by TLC over all small maps; replay through HitObjects and Beatmap (a sample also shifted); text-level shift relation on bundled and generated files; SortedStable evaluated on generated files with 25-95 objects, few distinct times (incl. signed zero), shuffled order",
+    technique="TLA+ spec MapPost (TimingLines decoder composed with stable sort, break sweep, slider velocity/duration and sample-point defaults at end+5 ms / node+5 ms) with invariants SortedStable, ComboAfterBreak, ClosedForms and ShiftInvariant checked by TLC over all small maps; replay through HitObjects and Beatmap (a sample also shifted); SectionFlow.tla (sections in any order and repeated) replayed for the objects; text-level shift relation on bundled and generated files; SortedStable evaluated on generated files with 25-95 objects, few distinct times (incl. signed zero), shuffled order",
     text="TLC enumerates every map of up to two objects (four kinds, equal and boundary start times, flags, sample shapes) x seven timing sections (velocity multipliers inside and beyond their clamp) x five break lists x multipliers x modes, and in a second `wide` profile every map of exactly three objects (incl. three-span sliders, hit-sound additions, file samples, custom indices 1/2/4) in all four modes, and checks that objects come out in stable time order, that the first object after a break starts a combo, the closed forms of velocity and duration, and that processing commutes with shifting all times by +-1, -7 and +-10^6 ms; the real decoders are compared with the predicted objects (combo flags, velocity, duration, and for every sample of the object and of each slider node: name, bank, bank-specified, volume, custom index, suffix, layering) on every case, and on real files with whole-millisecond times a text-level shift by seven different offsets must change nothing but the times.",
     note="Exactness rule: dyadic velocities and durations so that the `+5 ms` lookups are decided exactly; breaks in chronological file order; at most 3 objects per enumerated map.")
 
